@@ -143,10 +143,10 @@ theorem reply_constructors : ∀ c ∈ Generated.replyCtors, c.2 = "IsReply=true
 theorem deny_messages_are_the_models :
     ∀ d ∈ Generated.denyMessages, d.2.1 = "i" ∨ d.2.1 = "AccessCannotBeDiscon" ∨
       (DenyMsg.all.any fun m => m.source == d.2.2 && Generated.accessConsts.lookup d.2.1 == some m.priv) = true := by
-  decide
+  decide +kernel
 
 /-- … and every denial of the model occurs in the source. -/
 theorem model_denials_occur_in_source :
-    ∀ m ∈ DenyMsg.all, (Generated.denyMessages.any fun d => d.2.2 == m.source) = true := by decide
+    ∀ m ∈ DenyMsg.all, (Generated.denyMessages.any fun d => d.2.2 == m.source) = true := by decide +kernel
 
 end Mobius.C05
